@@ -1,6 +1,6 @@
 package main
 
-// Suite "net" (thorough tier): 2-3 real crdt.Consensus peers on loopback, real
+// Suite "net" (a few cases in the quick tier, more in the thorough tier): 2-3 real crdt.Consensus peers on loopback, real
 // gossipsub (signed messages, topic validator) and ipfs-lite block exchange.
 //
 //   C02 net <cfg> <script> => vals=<..> ph=<phase>|<phase>...
@@ -12,8 +12,12 @@ package main
 //         batching: N | Z1 (size 1, age 1h) | S<size> (age 60ms)
 // script: phases separated by '|', operations inside a phase by ';':
 //         <r>P<pin token> | <r>U<cid>     (inside a phase a CID is written by one replica only)
-// phase output:  <results o|r|e joined by ','>#<state of replica 0>/<its tracker calls>#<replica 1>...
-//   taken at a barrier: every replica has been given generous time to receive what it listens to.
+// phase output:  <results o|r|e joined by ','>#<sentinels>#<state of replica 0>/<its tracker calls>#<replica 1>...
+//   sentinels: at the end of a phase every replica pins one fresh CID (20 + 4*phase + replica),
+//   listed as <replica>:<cid>.<val><result>; a replica has caught up with a peer when it holds that
+//   peer's sentinel (so a barrier cannot be passed before anything was committed).
+//   The observation is taken at the barrier: every replica has been given generous time to receive
+//   what it listens to.
 
 import (
 	"context"
@@ -110,6 +114,12 @@ func parseNetScript(script string, n int) ([][]netOp, bool) {
 	return phases, true
 }
 
+func sentinelPin(phase, rep int) *api.Pin {
+	p := api.PinCid(common.CidN(fillerBase + 4*phase + rep))
+	p.Name = common.NameN(70 + 4*phase + rep)
+	return p
+}
+
 func (c netCfg) listens(i, j int) bool {
 	if i == j {
 		return true
@@ -171,38 +181,46 @@ func netAttempt(c netCfg, phases [][]netOp, vt *valTable, tag string) (line stri
 	heard := make([][]accOp, c.n)
 	ok = true
 	var outs []string
-	for _, ph := range phases {
-		var res []string
-		for _, o := range ph {
-			var err error
+	submit := func(o netOp) string {
+		var err error
+		if o.isPin {
+			err = peers[o.rep].cc.LogPin(ctx, o.pin)
+		} else {
+			err = peers[o.rep].cc.LogUnpin(ctx, o.pin)
+		}
+		switch {
+		case err == nil:
+			a := accOp{pin: o.isPin, cid: o.cid}
 			if o.isPin {
-				err = peers[o.rep].cc.LogPin(ctx, o.pin)
-			} else {
-				err = peers[o.rep].cc.LogUnpin(ctx, o.pin)
+				a.val = vt.val(o.pin)
 			}
-			switch {
-			case err == nil:
-				res = append(res, "o")
-				a := accOp{pin: o.isPin, cid: o.cid}
-				if o.isPin {
-					a.val = vt.val(o.pin)
+			for i := 0; i < c.n; i++ {
+				if c.listens(i, o.rep) {
+					heard[i] = append(heard[i], a)
 				}
-				for i := 0; i < c.n; i++ {
-					if c.listens(i, o.rep) {
-						heard[i] = append(heard[i], a)
-					}
-				}
-			case errors.Is(err, ccrdt.ErrMaxQueueSizeReached):
-				res = append(res, "r")
-			default:
-				res = append(res, "e")
 			}
+			return "o"
+		case errors.Is(err, ccrdt.ErrMaxQueueSizeReached):
+			return "r"
+		default:
+			return "e"
+		}
+	}
+	for pi, ph := range phases {
+		var res, sent []string
+		for _, o := range ph {
+			res = append(res, submit(o))
+		}
+		for r := 0; r < c.n; r++ {
+			sp := sentinelPin(pi, r)
+			o := netOp{rep: r, isPin: true, pin: sp, cid: common.CidIndex(sp.Cid, common.PinUniverse)}
+			sent = append(sent, fmt.Sprintf("%d:%d.%d%s", r, o.cid, vt.val(sp), submit(o)))
 		}
 		// barrier
 		states := make([]string, c.n)
 		for i := 0; i < c.n; i++ {
 			var done bool
-			states[i], done = waitState(peers[i], vt, oracle(heard[i]), 25*time.Second)
+			states[i], done = waitState(peers[i], vt, oracle(heard[i]), 10*time.Second)
 			if !done {
 				ok = false
 			}
@@ -213,7 +231,7 @@ func netAttempt(c netCfg, phases [][]netOp, vt *valTable, tag string) (line stri
 		} else {
 			time.Sleep(50 * time.Millisecond)
 		}
-		part := []string{strings.Join(res, ",")}
+		part := []string{strings.Join(res, ","), strings.Join(sent, ",")}
 		if len(res) == 0 {
 			part[0] = "-"
 		}
@@ -232,7 +250,7 @@ func runNet(emit func(string), cfgTok, script string) {
 		return
 	}
 	phases, okp := parseNetScript(script, c.n)
-	if !okp {
+	if !okp || len(phases) > 10 {
 		emit("# malformed net case: script")
 		return
 	}
@@ -245,7 +263,13 @@ func runNet(emit func(string), cfgTok, script string) {
 			}
 		}
 	}
-	vt := newValTable(pins)
+	all := append([]*api.Pin{}, pins...)
+	for ph := 0; ph < len(phases) && ph < 10; ph++ {
+		for r := 0; r < c.n; r++ {
+			all = append(all, sentinelPin(ph, r))
+		}
+	}
+	vt := newValTable(all)
 	for _, p := range pins {
 		vals = append(vals, strconv.Itoa(vt.val(p)))
 	}
@@ -255,7 +279,7 @@ func runNet(emit func(string), cfgTok, script string) {
 	}
 	tag := fmt.Sprintf("%x", time.Now().UnixNano()&0xffffff)
 	var last string
-	for attempt := 0; attempt < 3; attempt++ {
+	for attempt := 0; attempt < 2; attempt++ {
 		line, ok, infra := netAttempt(c, phases, vt, fmt.Sprintf("%s%d", tag, attempt))
 		if infra != nil {
 			emit(fmt.Sprintf("# inconclusive net case (infrastructure): %v", infra))
